@@ -234,7 +234,21 @@ func runC09(c *core.Ctx) {
 			}
 			return false
 		}
-		p := core.FindPath(seek, sk, isReturn, isStore)
+		// demanded on the success outcome only: after a failed Seek the position is whatever the wrapped
+		// reader says it is, and not recording the returned value there is not wrong
+		skc := sk.(*ssa.Call)
+		errEdge := func(b, s *ssa.BasicBlock) bool {
+			ifi, ok := b.Instrs[len(b.Instrs)-1].(*ssa.If)
+			if !ok {
+				return false
+			}
+			bo, ok := ifi.Cond.(*ssa.BinOp)
+			if !ok || !core.IsNilConst(bo.Y) || !extractOf(bo.X, skc, 1) {
+				return false
+			}
+			return (bo.Op == token.NEQ && s == b.Succs[0]) || (bo.Op == token.EQL && s == b.Succs[1])
+		}
+		p := core.FindPathSkipping(seek, sk, isReturn, isStore, errEdge)
 		c.Check(p == nil, "R09.4", core.FnName(seek), "offset = result of the inner Seek", core.InstrPos(sk),
 			"the wrapper records the position reported by the wrapped reader", "Seek does not record the wrapped reader's new position on every path: validateBlock then checks the wrong block").Path = c.P.PathStrings(p)
 	}
